@@ -26,6 +26,10 @@ rule("C02.f", "the one-variable branch of contracts / transports is entered unde
 rule("C19.f", "sibling sub-grid constructions agree on every argument except the one the branch is about", floor=1, props=["C19", "C08"])
 rule("C07.o", "a local array alias (a = b without copy) is not written through one name while the other is still used", floor=1,
      props=["C07", "C05"])
+rule("C07.p", "every de-duplication of a mapping by index keeps the same row (keep='first': the variable's first-appearance row, "
+              "i.e. its earliest time step) - siblings agree", floor=4, props=["C07", "C17", "C04"])
+rule("C11.h", "the JSON writer decides 'naive' by `tzinfo is None` (a None test), never by the truthiness of an offset "
+              "(timedelta(0) is falsy: UTC would be saved as naive)", floor=1)
 rule("C09.f", "a numpy array created from one name is not assigned other names by item (fixed string width truncates them)", floor=1)
 
 
@@ -41,7 +45,7 @@ def _prop_rule(fn):
     return "C07.n"
 
 
-@analysis("siblings", ["C07.n", "C02.f", "C19.f", "C07.o", "C09.f"])
+@analysis("siblings", ["C07.n", "C02.f", "C19.f", "C07.o", "C09.f", "C07.p", "C11.h"])
 def run(ctx):
     p = ctx.p
     # ================================================================= C07.n decided branches
@@ -201,3 +205,43 @@ def run(ctx):
                            "numpy fixes the string width of `%s` when it is created from the first name; assigning another, longer name by "
                            "item silently truncates it ('N10' -> 'N1'): rows are attributed to another node / asset, or to none" % arr, node=s)
     ctx.ob("C09.f", "package", "arrays of names", True, ok_detail="no fixed-width array of names receives other names by item")
+
+    # ================================================================= C07.p de-duplication convention
+    dd = []
+    for fn in sorted(p.all_functions(), key=lambda f: f.qualname):
+        for st in au.walk_stmts(fn.body):
+            for n in au.walk_own(st):
+                if isinstance(n, ast.Call) and au.method_name(n) in ("duplicated", "drop_duplicates") and isinstance(n.func, ast.Attribute) \
+                        and au.terminal(n.func.value) == "index":
+                    k = au.kwarg(n, "keep")
+                    keep = au.const_str(k) if k is not None else ("first" if k is None else None)
+                    if isinstance(k, ast.Constant) and k.value is False:
+                        keep = "False"
+                    dd.append((fn, n, keep))
+    ctx.require(len(dd) >= 4, "fewer than 4 de-duplications by index found")
+    tally = {}
+    for _, _, k in dd:
+        tally[k] = tally.get(k, 0) + 1
+    major = max(tally, key=lambda k: tally[k])
+    for fn, n, k in dd:
+        ctx.ob("C07.p", fn, au.short(n, 80), k == major,
+               "this de-duplication keeps %r while the other %d keep %r: for a variable with several rows (coarse frequency, periodic "
+               "asset, transport) different code paths then disagree about which row - which time step - stands for the variable "
+               "(e.g. present / future classification in make_slp)" % (k, tally[major], major), node=n)
+
+    # ================================================================= C11.h naive test of the writer
+    ser = p.modules.get("serialization")
+    ctx.require(ser is not None, "serialization module vanished")
+    found = False
+    for fn in ser.functions.values():
+        for st in au.walk_stmts(fn.body):
+            if isinstance(st, ast.If) and any(isinstance(s2, ast.Assign) and isinstance(s2.value, ast.Constant) and s2.value.value is None
+                                              and any(isinstance(t, ast.Name) and "tz" in t.id.lower() for t in s2.targets) for s2 in st.body):
+                found = True
+                nt = au.none_test(st.test)
+                ok = nt is not None and isinstance(nt[0], ast.Attribute) and nt[0].attr in ("tzinfo", "tz") and nt[1] is True
+                ctx.ob("C11.h", fn, "if %s" % au.short(st.test, 60), ok,
+                       "the writer treats a timestamp as naive under `%s`; only `tzinfo is None` is a test for naive: an offset of zero "
+                       "(UTC, London in winter) is falsy, so zone-aware dates are saved without zone and load back naive" % au.short(st.test, 40), node=st)
+    if not found:
+        ctx.ob("C11.h", "serialization", "naive test", None, "the writer's branch that stores __tz__ = None was not found")
